@@ -9,6 +9,16 @@ TRUST = ("Trusted base: CPython, Hypothesis, the reference models under lsfverif
          "'held' means held on the cases counted in the evidence file.")
 
 CHECKS = {
+    "C10": dict(
+        category="exploration",
+        technique="model-based (stateful) property testing: Hypothesis-generated API call sequences applied to the real front end (Quart and Flask) of a running engine and to a dict reference model; responses, error types and store snapshots compared after every call",
+        text=("Sequences of up to 30 Create/Update/Delete/Describe/DescribeForExecution/ListStateMachines/StartExecution/DescribeExecution/ListExecutions calls over small pools of names, role ARNs, "
+              "definitions (valid, empty, non-JSON, wrong JSON type, JSON that is no machine), logging configurations, types, inputs, execution references and non-object request bodies are run against "
+              "rest_api_asyncio (validate_asl on and off) and rest_api on a live engine over the simulated broker. The model is a map ARN -> record; every response (status, __type, body fields) is "
+              "compared with it, a refused call must leave both stores byte-identical, no call may answer 5xx, and at the end the live set and every record are read back."),
+        design_ref="DESIGN.md section 5 C10",
+        note="Validation order is not asserted (any applicable documented error type is accepted). " + TRUST,
+    ),
     "C15": dict(
         category="exploration",
         technique="property-based testing of generated parent/child launch scenarios and task-token callback streams on the real engine over a simulated broker and virtual clock, against a small expected-result model written from the property text (result shape, completion instant, cancellation, token acceptance)",
